@@ -507,7 +507,7 @@ def impl_handover(case):
 
     def dest(message):
         got.append(dict(message))
-    sched = LineScheduler(files=FILES, timeout=10)
+    sched = LineScheduler(files=FILES)
     from lib.linesched import instrument
     instrument(d, sched)          # the hand-over lock, whatever attribute holds it
     bufobj = getattr(d, names["dests"])[0]
